@@ -43,6 +43,11 @@ CLAIMS = {
             "kinds) + at end; tree of the prefix parse), C04_no_success_with_unread, C04_no_reject_at_end. Tie: rule structs of all "
             "kinds x inputs with skippable / pseudo-skippable tails x three input forms, against an independent trailing-skip oracle.",
             "DESIGN.md §4 C04"),
+    "C09": ("Theorems C09_matchers (+ per-operation forms, C09_prefix_code), C09_boundaries / C09_boundaries_check (for every expression, "
+            "good input/cursor/state: never Panic, cursor monotone and on a boundary in range, every span in the tree, on the stack and "
+            "every event position good), C09_entry_points, C09_error_location, C09_span_text. Runtime part (partial by nature): debug and "
+            "release builds of every catalogue shape on multi-byte alphabets, catch_unwind + exit status, every reported offset re-checked, "
+            "debug == release == model.", "DESIGN.md §4 C09"),
     "C10": ("Theorems C10_tracker_truth (for every event trace: what the report lists has a matching exit event at the reported "
             "position), C10_position_ge_start, C10_location (a rejected full parse reports at or after the EOI attempt following the "
             "matched prefix). Tie: Tracker::finish() of the real code vs the model's fold for every run; location checks; rendering "
